@@ -204,6 +204,11 @@ pub const LEAVES: &[Leaf] = &[
     leaf(". ./trapret.sh"),
     leaf("fsrctrapret"),
     leaf("pushd /nonexistent_dir_c18 2>/dev/null; pushd noexec.txt 2>/dev/null; dirs -c"),
+    leaf("exec 3> >(simcat >/dev/null); echo via3 >&3; exec 3>&-"),
+    leaf("exec 4< <(simseq 2); read v4 <&4; exec 4<&-"),
+    leaf("xtrue & wait %+"),
+    leaf("{ :; } & wait %%"),
+    leaf("simexit 3 & wait %1"),
 ];
 
 const SETUP: &str = "readonly RO=1\n\
